@@ -37,6 +37,14 @@ pub fn pool(tier: &str) -> Vec<Term> {
     v.push(Term::Sms(Box::new(s2)));
   }
   v.push(crate::c09::example_combined());
+  if let Term::Sms(s) = crate::c09::example_combined() {
+    let mut s2 = (*s).clone();
+    s2.remove = true;
+    v.push(Term::Sms(Box::new(s2.clone())));
+    v.push(Term::cached(Term::Sms(Box::new(s2.clone()))));
+    s2.original_source = None;
+    v.push(Term::Sms(Box::new(s2)));
+  }
   let leaves: Vec<Term> = vec![Term::raw("a"), Term::raw("\n"), o("a\nb"), o("a;b"), sms[17].clone(), Term::RawStr("b".into()), Term::RawBufS(b"q\n".to_vec())];
   for a in &leaves {
     v.push(Term::cached(a.clone()));
@@ -224,6 +232,15 @@ pub fn c14_tree(ctx: &mut Ctx, t: &Term, pres: &[Vec<Pre>]) {
 
 /// a == b must imply equal hashes and equal answers (neighbours one edit apart).
 pub fn c14_neighbours(ctx: &mut Ctx, t: &Term, e: &Term, kind: &str, pres: &[Vec<Pre>]) {
+  c14_neighbours_built(ctx, t, e, kind, pres);
+  if t.any(&|x| matches!(x, Term::Sms(_))) {
+    // the same pair with the two maps made from one base map by clone + setters (shared buffers)
+    let k2 = format!("{kind}+shared_map_buffers");
+    crate::term::with_shared_map_buffers(|| c14_neighbours_built(ctx, t, e, &k2, &pres[..1.min(pres.len())]));
+  }
+}
+
+fn c14_neighbours_built(ctx: &mut Ctx, t: &Term, e: &Term, kind: &str, pres: &[Vec<Pre>]) {
   let (ta, tb) = (model::model_text(t), model::model_text(e));
   let fresh_eq = {
     let (a, b) = (t.build(), e.build());
@@ -506,6 +523,20 @@ pub fn edits(t: &Term) -> Vec<(String, Term)> {
           None => "zz".into(),
         });
         out.push(("sms.original_source".into(), Term::Sms(Box::new(s))));
+        // edits that change the line structure of the intermediate text (which inner mappings
+        // exist at all), with and without the option that drops the intermediate file
+        if let Some(o) = &spec.original_source {
+          let mut cands: Vec<(&str, Option<String>)> = vec![("none", None), ("shift_lines", Some(format!("\n{o}")))];
+          if let Some(i) = o.find('\n') {
+            cands.push(("first_line_only", Some(o[..i].to_string())));
+            cands.push(("first_line_with_break", Some(o[..=i].to_string())));
+          }
+          for (k, x) in cands {
+            let mut s = (**spec).clone();
+            s.original_source = x;
+            out.push((format!("sms.original_source_{k}"), Term::Sms(Box::new(s))));
+          }
+        }
       }
       if let Some(inner) = &spec.inner {
         for (k, m) in edit_mapspec(inner, "sms.inner_map") {
@@ -621,6 +652,14 @@ fn observable(src: &dyn Source) -> Result<(String, Vec<u8>, Option<SourceMap>, O
 }
 
 pub fn c20_pair(ctx: &mut Ctx, t: &Term, e: &Term, kind: &str) {
+  c20_pair_built(ctx, t, e, kind);
+  if t.any(&|x| matches!(x, Term::Sms(_))) {
+    let k2 = format!("{kind}+shared_map_buffers");
+    crate::term::with_shared_map_buffers(|| c20_pair_built(ctx, t, e, &k2));
+  }
+}
+
+fn c20_pair_built(ctx: &mut Ctx, t: &Term, e: &Term, kind: &str) {
   ctx.evaluations += 1;
   ctx.transitions += 1;
   let case = || json!({"edit": kind, "term": serde_json::to_value(t).unwrap(), "edited": serde_json::to_value(e).unwrap()});
